@@ -1,21 +1,110 @@
 (** ParseSoundIncl.v — C03: RFC 8259 is contained in the lenient dialect (number literals of at
     most 63 bytes, under the contract [strtod_rfc] that the C library converts every RFC number
     literal completely), hence the derivations the two dialects share are exactly the RFC ones:
-    the dialects differ only in the three leaf predicates.  Uses the number-literal lemmas of
-    ParseComplete.v. *)
-From CJ Require Import Base Dbl Tree LibcNum ParseDefs ParseSpec Grammar ParseComplete ParseSoundGrammar.
+    the dialects differ only in the three leaf predicates.  *)
+From CJ Require Import Base Dbl Tree ParseDefs ParseSpec Grammar ParseSoundGrammar.
 Local Open Scope Z_scope.
+
+(** the contract on the C library: strtod converts every RFC 8259 number literal of at most 63
+    bytes completely (the same statement as [ParseComplete.strtod_rfc], which
+    [ParseComplete.strtod_ref_rfc] proves for the reference strtod) *)
+Definition strtod_rfc (strtod : bytes -> option (dbl * nat)) : Prop :=
+  forall t, rfc_number t = true -> (length t <= 63)%nat -> exists d, strtod t = Some (d, length t).
+
+(** * RFC number literals start with '-' or a digit and consist of number bytes *)
+
+(* the literal patterns of [rfc_number] / [rfc_frac] as tests *)
+Definition rfc_pos (t1 : bytes) : bool :=
+  match t1 with
+  | [] => false
+  | d :: r => if d =? 48 then rfc_frac r else digit d && rfc_frac (skip_digits r)
+  end.
+
+Lemma rfc_number_cons c r : rfc_number (c :: r) = if c =? 45 then rfc_pos r else rfc_pos (c :: r).
+Proof.
+  assert (Hpos : forall t1, match t1 with 48 :: r => rfc_frac r | d :: r => digit d && rfc_frac (skip_digits r) | [] => false end = rfc_pos t1).
+  { intros [|d r']; [reflexivity|]. unfold rfc_pos.
+    destruct d as [|p|p]; try reflexivity. do 6 (destruct p as [p|p|]; try reflexivity). }
+  unfold rfc_number. rewrite Hpos.
+  destruct c as [|p|p]; try reflexivity. do 6 (destruct p as [p|p|]; try reflexivity).
+Qed.
+
+Lemma rfc_frac_eq l :
+  rfc_frac l = match l with
+               | c :: d :: r => if c =? 46 then digit d && rfc_exp (skip_digits r) else rfc_exp l
+               | _ => rfc_exp l
+               end.
+Proof.
+  destruct l as [|c [|d r]]; try reflexivity.
+  - unfold rfc_frac. destruct c as [|p|p]; try reflexivity. do 6 (destruct p as [p|p|]; try reflexivity).
+  - unfold rfc_frac. destruct c as [|p|p]; try reflexivity. do 6 (destruct p as [p|p|]; try reflexivity).
+Qed.
+
+Lemma digit_nb c : digit c = true -> number_byte_g c = true.
+Proof. unfold number_byte_g. intros ->. reflexivity. Qed.
+
+Lemma skip_digits_nb l : forallb number_byte_g (skip_digits l) = true -> forallb number_byte_g l = true.
+Proof.
+  induction l as [|c r IH]; [reflexivity|]. cbn [skip_digits forallb].
+  destruct (digit c) eqn:E; [|exact (fun H => H)].
+  intro H. rewrite (digit_nb c E), (IH H). reflexivity.
+Qed.
+
+Lemma rfc_exp_nb l : rfc_exp l = true -> forallb number_byte_g l = true.
+Proof.
+  destruct l as [|c r]; [reflexivity|]. unfold rfc_exp.
+  destruct ((c =? 101) || (c =? 69)) eqn:Ec; [|discriminate].
+  assert (Hc : number_byte_g c = true).
+  { unfold number_byte_g. apply orb_true_iff in Ec as [E|E]; rewrite E; rewrite ?orb_true_r; reflexivity. }
+  assert (Hdig : forall r1, match r1 with d :: r2 => digit d && match skip_digits r2 with [] => true | _ => false end | [] => false end = true ->
+                            forallb number_byte_g r1 = true).
+  { intros [|d r2]; [discriminate|]. intro H. apply andb_true_iff in H as [Hd Hs]. cbn [forallb].
+    rewrite (digit_nb d Hd). apply skip_digits_nb. destruct (skip_digits r2); [reflexivity|discriminate]. }
+  intro H. cbn [forallb]. rewrite Hc. cbn [andb].
+  destruct r as [|s r']; [discriminate|].
+  destruct ((s =? 43) || (s =? 45)) eqn:Es.
+  - cbn [forallb]. rewrite (Hdig r' H).
+    assert (Hs : number_byte_g s = true).
+    { unfold number_byte_g. apply orb_true_iff in Es as [E|E]; rewrite E; rewrite ?orb_true_r; reflexivity. }
+    rewrite Hs. reflexivity.
+  - exact (Hdig (s :: r') H).
+Qed.
+
+Lemma rfc_frac_nb l : rfc_frac l = true -> forallb number_byte_g l = true.
+Proof.
+  rewrite rfc_frac_eq. destruct l as [|c [|d r]]; try apply rfc_exp_nb.
+  destruct (Z.eqb_spec c 46) as [->|N]; [|apply rfc_exp_nb].
+  intro H. apply andb_true_iff in H as [Hd He]. cbn [forallb].
+  rewrite (digit_nb d Hd). change (number_byte_g 46) with true. cbn [andb].
+  apply skip_digits_nb. apply rfc_exp_nb. exact He.
+Qed.
+
+Lemma rfc_pos_shape t : rfc_pos t = true ->
+  (exists d r, t = d :: r /\ digit d = true) /\ forallb number_byte_g t = true.
+Proof.
+  destruct t as [|d r]; [discriminate|]. unfold rfc_pos.
+  destruct (Z.eqb_spec d 48) as [->|N]; intro H.
+  - split; [exists 48, r; split; reflexivity|]. cbn [forallb]. rewrite (rfc_frac_nb r H). reflexivity.
+  - apply andb_true_iff in H as [Hd Hf]. split; [exists d, r; split; [reflexivity|exact Hd]|].
+    cbn [forallb]. rewrite (digit_nb d Hd). apply skip_digits_nb. apply rfc_frac_nb. exact Hf.
+Qed.
+
+Lemma rfc_number_shape t : rfc_number t = true ->
+  (exists c r, t = c :: r /\ ((c =? 45) || digit c) = true) /\ forallb number_byte_g t = true.
+Proof.
+  destruct t as [|c r]; [discriminate|]. rewrite rfc_number_cons.
+  destruct (Z.eqb_spec c 45) as [->|N]; intro H.
+  - split; [exists 45, r; split; reflexivity|]. cbn [forallb].
+    rewrite (proj2 (rfc_pos_shape r H)). reflexivity.
+  - destruct (rfc_pos_shape (c :: r) H) as [(d & r' & E & Hd) Hnb]. inversion E; subst d r'.
+    split; [exists c, r; split; [reflexivity|]; rewrite Hd; apply orb_true_r|exact Hnb].
+Qed.
 
 Lemma rfc_number_len_num_tok strtod t :
   strtod_rfc strtod -> rfc_number t = true -> (length t <= 63)%nat -> len_num_tok strtod t.
 Proof.
-  intros Hs Hn Hl. unfold len_num_tok. split; [|split; [|split]].
-  - destruct (rfc_number_first t Hn) as (c & r & -> & Hc). exists c, r. split; [reflexivity|].
-    unfold digit. destruct Hc as [->|Hc]; [reflexivity|].
-    apply orb_true_iff. right. apply andb_true_iff. split; apply Z.leb_le; lia.
-  - exact (rfc_number_nb t Hn).
-  - exact Hl.
-  - exact (Hs t Hn Hl).
+  intros Hs Hn Hl. destruct (rfc_number_shape t Hn) as [Hfirst Hnb].
+  unfold len_num_tok. split; [exact Hfirst|]. split; [exact Hnb|]. split; [exact Hl|]. exact (Hs t Hn Hl).
 Qed.
 
 Definition short_nums (v : jv) : Prop := jv_nums (fun t => (length t <= 63)%nat) v.
@@ -58,6 +147,3 @@ Proof.
   - intro Ht. apply rfc_sub_strict; assumption.
 Qed.
 
-(** the reference strtod satisfies the contract *)
-Theorem strtod_ref_rfc_contract : strtod_rfc strtod_ref.
-Proof. exact strtod_ref_rfc. Qed.
